@@ -748,6 +748,20 @@ func (x *Exec) step(op world.Op) {
 		panic("hist: unknown op " + op.K)
 	}
 	x.checkImage()
+	if x.Faults && x.Foreign == nil {
+		switch op.K {
+		case "apply":
+			// Apply always writes the jump; it REPORTED success: whatever earlier failed writes left behind,
+			// the page of this target's entry is read+execute again (every successful text write ends with
+			// that). Operations that may write nothing (Cancel of an un-mocked target, a clause added to an
+			// existing stub) are not covered by this rule.
+			if s := x.st[op.T]; s != nil && s.kind != kUnknown {
+				if pm := simenv.PermsAt(Targets[op.T].Entry); len(pm) >= 3 && (pm[1] == 'w' || pm[2] != 'x') {
+					x.fail("pages/writable-after-success", "%s on %s returned without error but the page of its entry is mapped %s", op.K, Targets[op.T].Name, pm)
+				}
+			}
+		}
+	}
 	// behaviour of the touched target right after the step
 	switch op.K {
 	case "apply", "ret", "retseq", "when", "cancel", "bad":
